@@ -104,7 +104,7 @@ void manual_mode() {
 }
 
 // ============================================================ (b) single-thread start(awaitable) under virtual time
-enum { NDONE = 0, SEQ = 1, ISSUED_N = 2, CANCEL_TRUE = 3, EXC_N = 4, STARTED = 10, PENDING = 100, TP = 200, DONE_AT = 300, OUTCOME = 400, T_CALL = 500, ISSUED = 600 };
+enum { NDONE = 0, SEQ = 1, ISSUED_N = 2, CANCEL_TRUE = 3, EXC_N = 4, STARTED = 10, PENDING = 100, TP = 200, DONE_AT = 300, OUTCOME = 400, T_CALL = 500, ISSUED = 600, CANCEL_HIT = 700 };
 bool exact_time() { return !(dsim::config().stalls && dsim::faults_enabled()); }
 
 void sleeper_woke(int i, int kind) {
@@ -118,6 +118,8 @@ void sleeper_woke(int i, int kind) {
         if (exact_time() && now != expect) dsim::fail("C12.late", "idle scheduler woke sleep %d at +%ldns, its time point is +%ldns (called at +%ldns)", i, now, tp, t_call);
     }
 }
+// single-thread mode: the scheduler outlives every sleeper, so a sleep may only end with an exception when a cancel() hit it
+void not_cancelled_by_nobody(int i) { if (!dsim::cell_get(CANCEL_HIT + i)) dsim::fail("C12.cancel_wrong_target", "sleep %d ended with an exception although no cancel() was aimed at it and the scheduler is alive", i); }
 cocls::async<void> st_sleeper(cocls::scheduler &sch, int i, long delay_ms, int idk, clk::time_point base) {
     long tp = virt(base + ms(delay_ms));
     dsim::cell_set(TP + i, tp); dsim::cell_set(T_CALL + i, dsim::now_ns()); dsim::cell_set(PENDING + i, 1);
@@ -127,12 +129,13 @@ cocls::async<void> st_sleeper(cocls::scheduler &sch, int i, long delay_ms, int i
         for (int j = 0; j < 8; j++) if (j != i && dsim::cell_get(PENDING + j) && dsim::cell_get(TP + j) < tp && dsim::cell_get(T_CALL + j) <= dsim::cell_get(T_CALL + i))
             dsim::fail("C12.order", "sleep %d (+%ldns) completed while sleep %d (+%ldns) is still pending", i, tp, j, dsim::cell_get(TP + j));
         sleeper_woke(i, 1);
-    } catch (const cocls::await_canceled_exception &) { sleeper_woke(i, 3); }
-    catch (const vs::TestError &e) { sleeper_woke(i, 2); dsim::cell_set(EXC_N, e.code); }
+    } catch (const cocls::await_canceled_exception &) { sleeper_woke(i, 3); not_cancelled_by_nobody(i); }
+    catch (const vs::TestError &e) { sleeper_woke(i, 2); dsim::cell_set(EXC_N, e.code); not_cancelled_by_nobody(i); }
 }
 cocls::async<void> st_canceller(cocls::scheduler &sch, long delay_ms, int idk, int target, bool custom, clk::time_point base) {
     co_await sch.sleep_until(base + ms(delay_ms));
     bool expect = target >= 0 && dsim::cell_get(PENDING + target);
+    if (expect) dsim::cell_set(CANCEL_HIT + target, 1);
     bool r = custom ? (bool)sch.cancel(ident(idk), vs::make_err(4000 + idk)) : (bool)sch.cancel(ident(idk));
     if (r != expect) dsim::fail(expect ? "C12.cancel_missed_pending" : "C12.cancel_wrong_target", "cancel(id%d) at +%ldms returned %d but the sleep carrying that id is %s", idk, delay_ms, (int)r, expect ? "pending" : "not pending");
     if (r) dsim::cell_add(CANCEL_TRUE, 1);
@@ -153,16 +156,21 @@ cocls::async<void> st_interval_user(cocls::scheduler &sch, int ticks, long perio
     }
     src.request_stop();           // must not crash or hang (generator parked at co_yield)
 }
-cocls::async<void> st_root(cocls::scheduler &sch, int n, const long *delay, const int *idk, int ncanc, const long *cdelay, const int *ctarget, const bool *ccustom, int interval_ticks) {
+// everything the first root starts lives here: start() may return while some of it is still pending
+struct StWorld { cocls::future<void> f[8], cf[4], ivf; };
+// first activation of start(): starts every party, awaits only the first nroot sleepers
+cocls::async<void> st_root(cocls::scheduler &sch, StWorld &w, int n, const long *delay, const int *idk, int ncanc, const long *cdelay, const int *ctarget, const bool *ccustom, int interval_ticks, int nroot) {
     clk::time_point base = clk::now();
-    std::vector<cocls::future<void>*> fs;
-    cocls::future<void> f[8], cf[4], ivf;
-    for (int i = 0; i < n; i++) f[i] << [&] { return st_sleeper(sch, i, delay[i], idk[i], base).start(); };
-    for (int c = 0; c < ncanc; c++) cf[c] << [&] { return st_canceller(sch, cdelay[c], ctarget[c] >= 0 ? idk[ctarget[c]] : 7, ctarget[c], ccustom[c], base).start(); };
-    if (interval_ticks) ivf << [&] { return st_interval_user(sch, interval_ticks, 7).start(); };
-    for (int i = 0; i < n; i++) co_await f[i];
-    for (int c = 0; c < ncanc; c++) co_await cf[c];
-    if (interval_ticks) co_await ivf;
+    for (int i = 0; i < n; i++) w.f[i] << [&] { return st_sleeper(sch, i, delay[i], idk[i], base).start(); };
+    for (int c = 0; c < ncanc; c++) w.cf[c] << [&] { return st_canceller(sch, cdelay[c], ctarget[c] >= 0 ? idk[ctarget[c]] : 7, ctarget[c], ccustom[c], base).start(); };
+    if (interval_ticks) w.ivf << [&] { return st_interval_user(sch, interval_ticks, 7).start(); };
+    for (int i = 0; i < nroot; i++) co_await w.f[i];
+}
+// second activation: awaits whatever the first one left behind (sleeps still in the heap, possibly already due)
+cocls::async<void> st_root2(StWorld &w, int n, int ncanc, int interval_ticks, int nroot) {
+    for (int i = nroot; i < n; i++) co_await w.f[i];
+    for (int c = 0; c < ncanc; c++) co_await w.cf[c];
+    if (interval_ticks) co_await w.ivf;
 }
 void single_thread_mode() {
     dsim::config().stalls = dsim::flip();
@@ -172,19 +180,18 @@ void single_thread_mode() {
     int ncanc = dsim::choose(3); long cdelay[4]; int ctarget[4]; bool ccustom[4];
     for (int c = 0; c < ncanc; c++) { cdelay[c] = 5 * (long)dsim::choose(8) + 2; ctarget[c] = (int)dsim::choose(n + 1) - 1; ccustom[c] = dsim::flip(); }
     int interval_ticks = dsim::choose(3);
+    int nroot = dsim::flip() ? n : 1 + (int)dsim::choose(n);      // how many sleepers the first start() waits for; the rest is left pending when it returns
     bool nested = false;   // recursive start() from a coroutine of the outer start() is not driven (see DESIGN §7 C12)
     dsim::plan_note("single-thread start(): stalls=%d sleepers=", (int)dsim::config().stalls);
     for (int i = 0; i < n; i++) dsim::plan_note("%ld,", delay[i]);
     for (int c = 0; c < ncanc; c++) dsim::plan_note(" cancel@%ld->%d%s", cdelay[c], ctarget[c], ccustom[c] ? "c" : "");
-    dsim::plan_note(" interval_ticks=%d nested=%d", interval_ticks, (int)nested);
+    dsim::plan_note(" interval_ticks=%d nested=%d first_start_awaits=%d", interval_ticks, (int)nested, nroot);
     cocls::scheduler sch;
-    long t0 = dsim::now_ns();
-    if (nested) {
-        // a coroutine run by an outer start() runs an inner start() on the same scheduler
-        auto outer = [&]() -> cocls::async<void> { co_await sch.sleep_for(ms(3)); sch.start(st_root(sch, n, delay, idk, ncanc, cdelay, ctarget, ccustom, 0).start()); co_return; };
-        sch.start(outer().start());
-    } else sch.start(st_root(sch, n, delay, idk, ncanc, cdelay, ctarget, ccustom, interval_ticks).start());
-    (void)t0;
+    StWorld w;
+    sch.start(st_root(sch, w, n, delay, idk, ncanc, cdelay, ctarget, ccustom, interval_ticks, nroot).start());
+    for (int i = 0; i < nroot; i++) if (!dsim::cell_get(OUTCOME + i)) dsim::fail("C12.lost", "sleep %d never completed although the start() that awaited it returned", i);
+    // what the first start() did not wait for is either complete or still pending - never dropped: a second start() completes it
+    sch.start(st_root2(w, n, ncanc, interval_ticks, nroot).start());
     for (int i = 0; i < n; i++) if (!dsim::cell_get(OUTCOME + i)) dsim::fail("C12.lost", "sleep %d never completed although start() returned", i);
 }
 
